@@ -200,7 +200,7 @@ def finish(prop, tier, level, results, replay_fn=None, trusted_base=(), explanat
                      for o in (proved[:6] + refuted[:4] + undecided[:4])] + samples[:10]) or [{'note': 'no obligations'}],
         'bounded_standins': [dict((k, v) for k, v in s.items() if k != 'violations') for s in standins],
         'undecided_list': [{'name': o['name'], 'detail': o.get('detail')} for o in undecided[:40]],
-        'known_findings_printed': [k['id'] for k, _ in known_hits],
+        'known_findings_printed': sorted(set(k['id'] for k, _ in known_hits)),
         'notes': notes[:40],
         'explanation': explanation,
         'exhaustive': False,
@@ -216,8 +216,13 @@ def finish(prop, tier, level, results, replay_fn=None, trusted_base=(), explanat
     with open(os.path.join(EVIDENCE_DIR, prop + '.json'), 'w') as f:
         json.dump(ev, f, indent=1, default=str)
 
+    printed = {}
     for k, o in known_hits:
-        print('KNOWN-FINDING: property=%s %s %s' % (prop, k['id'], k['what']))
+        printed[k['id']] = printed.get(k['id'], 0) + 1
+    for k, o in known_hits:
+        if k['id'] in printed:
+            n = printed.pop(k['id'])
+            print('KNOWN-FINDING: property=%s %s %s%s' % (prop, k['id'], k['what'], ' [%d witnesses]' % n if n > 1 else ''))
     for o, path, outcome in violations:
         tail = ''
         if outcome is None or outcome.get('reproduced') is None:
